@@ -18,6 +18,9 @@ type Val struct {
 	Fn    *Closure
 	Const constant.Value
 	Dyn   *Val // for interface values created by boxing: the concrete value
+	// Sub: for a slice value obtained as base[lo:...]: the base slice's offset term and lo; element i then lives at
+	// (ix baseOff (+ lo i)), which lets facts stated over the base slice's elements match syntactically
+	Sub *[2]string
 }
 
 type Closure struct {
